@@ -50,6 +50,31 @@ pub fn run(ctx: &mut Ctx) {
     ctx.run_cases("known-extreme", 1, true, |ctx, _rng, idx| {
         one_case(ctx, idx, KNOWN_EXTREME.to_vec(), 4, 0.4988413339439832, true, 44100, 0.6103194783938943);
     });
+    // end-to-end leg: LSP voices (stage 1..4, either gain convention, every option order in
+    // the header) through the engine; the stage / gain convention / alpha the vocoder really
+    // uses must be the file's (waveform == hooked trajectories rendered with the header's)
+    let env = crate::env::Env::new(ctx);
+    let n = ctx.n(48, 1500);
+    ctx.run_cases("engine", n, false, |ctx, rng, idx| {
+        let mut o = crate::voicegen::VoiceOpts::random(rng);
+        o.stage = 1 + idx % 4;
+        o.ln_gain = (idx / 4) % 2 == 1;
+        o.opt_order = (idx / 8) % 6;
+        let spec = crate::voicegen::generate(&o, &env.pool, rng);
+        let bytes = crate::voicegen::write(&spec);
+        let rv = match crate::voiceread::read_voice(&bytes) {
+            Ok(r) => r,
+            Err(e) => {
+                ctx.inconclusive(&format!("reference reader on generated voice: {}", e));
+                return;
+            }
+        };
+        let p = env.voice_file(&bytes);
+        crate::mon::c04::check_engine_defaults(ctx, &rv, &p);
+        ctx.count("lsp_voices_through_the_engine", 1.0);
+        ctx.nontrivial(mix(&[0xe9, o.stage as u64, o.ln_gain as u64, o.opt_order as u64]));
+        env.remove(&p);
+    });
     let n = ctx.n(1920, 30000);
     ctx.run_cases("lsp", n, false, |ctx, rng, idx| {
         let m = if idx % 9 == 0 { *rng.pick(&[2usize, 3, 23, 24]) } else { rng.range(2, 24) };
